@@ -43,13 +43,16 @@ Theorem C10_exact_once_tillage :
   exactly_once_in_order (till_fired (rd_date (till_read dflt B ls)) steps B E) (shiftL D) 1 E 1.
 Proof. exact (@c10_exact_once_till). Qed.
 
-(* exact_once, irrigation (at most one per day: strictly ascending dates): fires on its own date *)
+(* exact_once, irrigation (at most one per day: strictly ascending dates): fires on its own date.
+   g.BEGINN is still 0 when the irrigation file is read (input.go:320 runs before input.go:590), so
+   the reader drops nothing; the theorem therefore needs every irrigation of the field dated on or
+   after BEGINN (strict_from (B-1)) — see C10_prestart_irrigation_refuted *)
 Theorem C10_exact_once_irrigation :
   forall (P : Type) (dflt : P) (B E : Z) (ls : list (line P)),
   0 < B ->
-  let D := dates (kept B (processed true ls)) in
+  let D := dates (kept 0 (processed true ls)) in
   strict_from (B - 1) D ->
-  exactly_once_in_order (irr_fired (rd_date (irr_read dflt B ls)) B E) D 0 E 0.
+  exactly_once_in_order (irr_fired (rd_date (irr_read dflt 0 ls)) B E) D 0 E 0.
 Proof. exact (@c10_exact_once_irr). Qed.
 
 (* exact_once, sowing and harvest with fixed dates: entries (s_k, e_k), k >= 1, with
@@ -103,13 +106,13 @@ Theorem C10_pre_start_tillage :
      rd_pay s (Z.of_nat i) = snd (nth i (kept B (processed true ls)) (ev0 dflt))).
 Proof. exact (@c10_pre_start_till). Qed.
 
-Theorem C10_pre_start_irrigation :
-  forall (P : Type) (dflt : P) (B : Z) (ls : list (line P)),
-  let s := irr_read dflt B ls in
-  rd_n s = Z.of_nat (length (kept B (processed true ls))) /\
-  (forall i, (i < length (kept B (processed true ls)))%nat ->
-     rd_pay s (Z.of_nat i) = snd (nth i (kept B (processed true ls)) (ev0 dflt))).
-Proof. exact (@c10_pre_start_irr). Qed.
+Theorem C10_irrigation_payload_alignment :
+  forall (P : Type) (dflt : P) (ls : list (line P)),
+  let s := irr_read dflt 0 ls in
+  rd_n s = Z.of_nat (length (kept 0 (processed true ls))) /\
+  (forall i, (i < length (kept 0 (processed true ls)))%nat ->
+     rd_pay s (Z.of_nat i) = snd (nth i (kept 0 (processed true ls)) (ev0 dflt))).
+Proof. exact (@c10_irr_payload). Qed.
 
 (* payload_fert: a firing adds exactly the split of its own slot to DSUMM, NH4Sum, NFOS[0], NAOS[0]
    and advances the cursor; otherwise nothing changes *)
@@ -185,6 +188,15 @@ Theorem C10_prestart_tillage_refuted :
     till_fired (rd_date (till_read tt B (mk_lines ds))) one_step B E <> [].
 Proof. exact c10_prestart_tillage_refuted. Qed.
 
+(* "actions dated before the start are ignored" is false for irrigation: an irrigation dated before
+   the start is kept (BEGINN is 0 while the file is read), the cursor waits for it forever and every
+   later irrigation of the field is lost (witness BEGINN=100, dates 90,150,200, ENDE=400) *)
+Theorem C10_prestart_irrigation_refuted :
+  exists (B E : Z) (ds : list Z),
+    strict_from 0 ds /\ (exists d, In d ds /\ B <= d <= E) /\
+    irr_fired (rd_date (irr_read tt 0 (mk_lines ds))) B E = [].
+Proof. exact c10_prestart_irrigation_refuted. Qed.
+
 (* non-vacuity: a same-day pair followed by an event on the next day is in the class and is carried
    out on d+1, d+2, d+3 (BEGINN = 100, residues slot 0 on 101) *)
 Example C10_cascade_example :
@@ -201,7 +213,7 @@ Print Assumptions C10_on_time.
 Print Assumptions C10_strictly_ascending_not_moved.
 Print Assumptions C10_pre_start_fertiliser.
 Print Assumptions C10_pre_start_tillage.
-Print Assumptions C10_pre_start_irrigation.
+Print Assumptions C10_irrigation_payload_alignment.
 Print Assumptions C10_payload_fert.
 Print Assumptions C10_payload_amounts.
 Print Assumptions C10_payload_irr.
@@ -209,3 +221,4 @@ Print Assumptions C10_substep_safe.
 Print Assumptions C10_exact_once_refuted.
 Print Assumptions C10_pair_after_pair_refuted.
 Print Assumptions C10_prestart_tillage_refuted.
+Print Assumptions C10_prestart_irrigation_refuted.
